@@ -75,7 +75,8 @@ def gen(rng, tier):
         # the same prefix written with a trailing slash (or a bare "/") is normalised by the configuration: same split
         root_cfg = root + "/" if rng.random() < 0.25 else root
         req = G.gen_request(rng, i, version, tier, body_sizes=[size], methods=["POST" if size else "GET", "PUT" if size else "DELETE"])
-        tail = rng.choice(["", "/x", "/caf%C3%A9", "/a%20b", "/%E2%82%AC/z", "/p;q=1"])
+        # (escapes that are not UTF-8 are octets like any other: PEP 3333 carries them in PATH_INFO one character each)
+        tail = rng.choice(["", "/x", "/caf%C3%A9", "/a%20b", "/%E2%82%AC/z", "/p;q=1", "/caf%E9", "/%FF%FE/bin"])
         base_path = (root.encode("utf-8").decode("latin-1").encode("latin-1") if False else b"")
         # path = quoted(root) + /t<i> + tail   (root may contain non-ASCII -> percent-encode it on the wire)
         from urllib.parse import quote
@@ -140,13 +141,15 @@ def nontrivial(case, obs):
 def ref_environ(t, conn):
     req = t["req"]
     root = t["root"].rstrip("/")
-    path = G.pct_decode(req["path"])
-    assert path.startswith(root)
-    info = path[len(root):] or "/"
+    from urllib.parse import unquote_to_bytes
+
+    raw = unquote_to_bytes(req["path"])
+    assert raw.startswith(root.encode("utf-8"))
+    info = raw[len(root.encode("utf-8")):] or b"/"
     env = {
         "REQUEST_METHOD": req["method"],
         "SCRIPT_NAME": root.encode("utf-8").decode("latin-1"),
-        "PATH_INFO": info.encode("utf-8").decode("latin-1"),
+        "PATH_INFO": info.decode("latin-1"),
         "QUERY_STRING": (req["query"] or b"").decode("latin-1"),
         "SERVER_PROTOCOL": "HTTP/" + t["version"],
         "wsgi.url_scheme": "http",
